@@ -32,6 +32,11 @@ Fixpoint hbw (k : nat) (ws : list int) : bytes :=
 Definition hb (k : int) (ws : list int) : bytes := hbw (Z.to_nat (to_Z k)) ws.
 '''
 
+ORACLE_NAMES = ['blake2b', 'sha256', 'b58enc', 'b58dec', 'ed_seed_keypair', 'ed_sk_to_pk', 'ed_sk_to_seed', 'ed_sign', 'ed_verify', 'sp_pk', 'sp_sign',
+                'sp_decode', 'sp_verify', 'p2_pk', 'p2_sign', 'p2_decode', 'p2_verify', 'bl_pk', 'bl_sign', 'bl_verify', 'pbkdf2', 'secretbox',
+                'secretbox_open', 'to_seed', 'nf_split', 'word_index']
+PRELUDE += ''.join(f'Definition n_{n} := "{n}"%string.\n' for n in ORACLE_NAMES)
+
 
 def cblob(b: bytes) -> str:
     b = bytes(b)
@@ -396,7 +401,8 @@ def ctable(calls) -> str:
     rows = []
     for name, args, ret in calls:
         r = {'V': 'RaiseV', 'O': 'RaiseO'}[ret] if isinstance(ret, str) else f'(Ret {clist(carg(x) for x in ret)})'
-        rows.append(f'("{name}"%string, {clist(carg(a) for a in args)}, {r})')
+        nm = f'n_{name}' if name in ORACLE_NAMES else f'"{name}"%string'
+        rows.append(f'({nm}, {clist(carg(a) for a in args)}, {r})')
     return '(' + clist(rows) + ' : otable)' if rows else '(@nil (string * list arg * ret))'
 
 
